@@ -7,7 +7,7 @@
    is the record Config.load produces from the configuration text (C15). The response cache is not part of this model
    (C16 models it; the end-to-end cases of this model run with the cache off or compare cache-transparent answers), nor are
    plugins, TLS and the WebSocket pass-through. Definitions only. *)
-From Hv Require Import Prelude Bytes TablesHttp TablesConfig Http Krauss Routing Blacklist StaticFs Config.
+From Hv Require Import Prelude Bytes TablesHttp TablesConfig TablesWs Http Krauss Routing Blacklist StaticFs Config.
 Open Scope N_scope.
 
 (* str::chars of a (valid) UTF-8 byte string: the matcher works on characters *)
@@ -47,11 +47,43 @@ Inductive sresp : Type :=
 | SStatic (r : StaticFs.resp)      (* file_handler / directory_handler *)
 | SProxy (targets : list bytes) (mode : N) (matches : bytes)   (* handed to proxy_handler (C09) *)
 | SWsOnly                          (* RouteType::ExclusiveWebSocket asked over plain HTTP: 404 with a message *)
+| SWsProxy (target : bytes)        (* WebSocket upgrade on a route with a `websocket` target: tunnelled to it *)
+| SClosed                          (* WebSocket upgrade that no WebSocket route takes: closed without a response *)
 | SPanic.                          (* index out of range / unwrap of a missing path: the handler thread panics *)
 
 (* init_app_routes: the App sub-application built for a host *)
 Definition subapp_of (h : host_cfg) : subapp :=
   {| sa_host := scalars (hc_matches h); sa_routes := map (fun r => scalars (rt_matches r)) (hc_routes h) |}.
+
+(* init_app_routes also registers a WebSocket route for every route that has a `websocket` target (its own or the
+   server-wide default), under the index the route has among ALL routes of its host *)
+Fixpoint ws_indexed_from (k : nat) (rs : list route_cfg) : list (nat * route_cfg) :=
+  match rs with
+  | [] => []
+  | r :: rs' => match rt_ws r with
+                | Some _ => (k, r) :: ws_indexed_from (S k) rs'
+                | None => ws_indexed_from (S k) rs'
+                end
+  end.
+Definition ws_indexed (h : host_cfg) : list (nat * route_cfg) := ws_indexed_from 0 (hc_routes h).
+Definition ws_subapp_of (h : host_cfg) : subapp :=
+  {| sa_host := scalars (hc_matches h); sa_routes := map (fun ir => scalars (rt_matches (snd ir))) (ws_indexed h) |}.
+
+Definition ws_handler_ids (c : config) (ch : choice) : option (nat * nat) :=
+  match ch with
+  | InDefault j => option_map (fun ir => (O, fst ir)) (nth_error (ws_indexed (cf_default_host c)) j)
+  | InSub i j => match nth_error (cf_hosts c) i with
+                 | Some hc => option_map (fun ir => (S i, fst ir)) (nth_error (ws_indexed hc) j)
+                 | None => None
+                 end
+  end.
+
+(* app.rs client_handler: req.headers.get(&HeaderType::Upgrade) == Some("websocket") *)
+Definition is_upgrade (req : request) : bool :=
+  match hget (HKnown H_Upgrade) (r_headers req) with
+  | Some v => beq v WS_APP_UPGRADE_VALUE
+  | None => false
+  end.
 
 (* the (host index, route index) pair baked into the closure main() registers: default host = 0, hosts from 1 *)
 Definition handler_ids (ch : choice) : nat * nat :=
@@ -106,11 +138,31 @@ Section Server.
       else SPanic
     end.
 
+  (* server.rs inner_websocket_handler (after fix F37: the blacklist applies here too) *)
+  Definition ws_response (c : config) (verdict : Blacklist.verdict) (req : request) : sresp :=
+    match get_handler (map ws_subapp_of (cf_hosts c)) (ws_subapp_of (cf_default_host c))
+                      (option_map scalars (hget (HKnown H_Host) (r_headers req))) (scalars (r_uri req)) with
+    | None => SClosed
+    | Some ch =>
+      match ws_handler_ids c ch with
+      | None => SPanic
+      | Some (h, j) =>
+        match verdict with
+        | Forbidden => SForbidden
+        | _ => match get_route c h j with
+               | Some rt => match rt_ws rt with Some t => SWsProxy t | None => SPanic end
+               | None => SPanic
+               end
+        end
+      end
+    end.
+
   (* one request from peer p on a fresh connection *)
   Definition server_response (c : config) (p : peer) (req : request) : sresp :=
     match Blacklist.serve ipp (cf_bl_mode c =? BLOCK_MODE) (cf_bl_list c) p (r_headers req) with
     | Dropped => SDropped
     | verdict =>
+      if is_upgrade req then ws_response c verdict req else
       match get_handler (map subapp_of (cf_hosts c)) (subapp_of (cf_default_host c))
                         (option_map scalars (hget (HKnown H_Host) (r_headers req))) (scalars (r_uri req)) with
       | None => SNotFound
